@@ -13,7 +13,7 @@ class C13(Property):
     gen_targets = ["Funfit", "ProcessGlue"]
 
     def units(self, tier):
-        return [InterpUnit(), InterpOracleUnit(), WC13(("C13",), ops=['interpolate','interpolate','shift_x','scale_y','append','repeat'], max_len=6, queries=False, invalid_kinds=['method', 'grid_ends', 'grid_ends_permuted', 'interp_none'])]
+        return [InterpUnit(), InterpOracleUnit(), WC13(("C13",), ops=['interpolate','interpolate','shift_x','scale_y','append','repeat'], max_len=6, queries=False, invalid_kinds=['method', 'grid_ends', 'grid_ends_permuted', 'grid_ends_near', 'interp_none'])]
 
 
 PROPERTY = C13()
